@@ -15,6 +15,9 @@ checks = {
  "C08": dict(cat="fault_enumeration", tech="crash-point enumeration: process death (byte copy of the open data directory) at every ABCI call boundary of every catalogue history, restart through the real start-up code, replay, transcript comparison",
    text="For every catalogue history and every boundary (after InitChain, after BeginBlock, after each DeliverTx, after EndBlock, after Commit) the process dies; a new application is started on a byte copy of the data directory through the start-up code generated from Prepare(); Info() must report the last completed commit, and after re-sending the missing blocks the transcript incl. 7 trailing blocks must equal the uninterrupted run's. Thorough adds every pair of crashes (incl. crash during replay).",
    note="Crash image = all pages written so far (no torn goleveldb batch); block store and tx index are Tendermint's and survive. The witness flag is whatever the application's own start-up code computes.", ref="DESIGN.md section 3 C08"),
+ "C18": dict(cat="exploration", tech="exhaustive enumeration of a finite hostile-input menu per transaction kind and base state, in sacrificial worker processes of the real application",
+   text="For every catalogue scenario (base state + valid transaction of a kind) every input of a finite menu is built: every payload leaf replaced by every hostile value of its class (negative / zero / 2^63 / 10^40 amounts, unknown and empty currencies, empty / short / long / nil addresses, truncated / empty / garbage embedded Ethereum transactions, -1 / max integers, null for everything), every object/array node replaced, whole payload replaced, the payload under every other type, structural garbage, signature-list shapes and hostile fee values, payload variants correctly re-signed. Each goes to CheckTx and, separately, into a delivered block; the worker process must survive, the application must not close itself (recovered panic), Tendermint must accept the validator updates, and a probe SEND must check and deliver as usual afterwards.",
+   note="'Whatever bytes' is covered by the finite structured menu only (arbitrary byte strings would be sampling). A worker death is retried once in a fresh process and reported only if it reproduces.", ref="DESIGN.md section 3 C18"),
 }
 order=sorted(checks)
 m={
